@@ -2,7 +2,7 @@
 # Apply a seeded change to /repo, run every check (quick), undo the change. Usage: tools/seed_eval.sh <patch.diff> [ids...]
 set -u
 PATCH="$1"; shift
-IDS="${*:-C01 C02 C03 C06 C07 C08 C09 C10 C11 C12 C13 C14 C15 C16 C17 C18 C19 C20}"
+IDS="${*:-C01 C02 C03 C04 C05 C06 C07 C08 C09 C10 C11 C12 C13 C14 C15 C16 C17 C18 C19 C20}"
 cd /verif || exit 2
 if [ -n "$(git -C /repo status --porcelain)" ]; then echo "refusing: /repo is not clean"; exit 2; fi
 git -C /repo apply "$PATCH" || { echo "patch does not apply"; exit 2; }
